@@ -92,6 +92,7 @@ def main():
     if not ck.build():
         ck.finish()
     ck.check_props()
+    ck.check_translation("linear")
     cases = []
     nmax = 2 if ck.quick else 3
     pool = G.exhaustive_small()
